@@ -41,7 +41,8 @@ CONSTANTS
   BitWidth = 8
   AllowEmpty = %(allowempty)s
   AlwaysRow = %(alwaysrow)s
-  Plans = %(plans)s
+  Plan1 = %(plan1)d
+  Plan2 = %(plan2)d
   SampleDB = %(sampledb)d
   SampleMS = %(samplems)d
   SampleSeries = %(sampleseries)d
@@ -62,7 +63,7 @@ def selcfg(name, kind, kv, gl, plans, sample=None, svals=ALLV, eqpats=ALLV, repa
     max series, max matchers) exported on top"""
     sample = sample or (0, 0, 1, 1)
     return {'name': name, 'kind': kind, 'kv': kv, 'gl': gl, 'maxseries': max(p[0] for p in plans), 'maxmatchers': max(p[1] for p in plans),
-            'plans': '{' + ', '.join('%d' % (100 * p[0] + p[1]) for p in plans) + '}', 'svals': svals,
+            'plan1': 100 * plans[0][0] + plans[0][1], 'plan2': (100 * plans[1][0] + plans[1][1]) if len(plans) > 1 else 0, 'svals': svals,
             'eqpats': eqpats, 'repats': repats, 'ops': ops, 'allowempty': 'TRUE' if kind == 'prof' else 'FALSE',
             'alwaysrow': 'TRUE' if kind == 'prof' else 'FALSE', 'sampledb': sample[0], 'samplems': sample[1], 'sampleseries': sample[2],
             'samplematchers': sample[3], 'outfile': name + '.json', 'bounds': {'plans': plans, 'sample': sample}}
@@ -156,7 +157,14 @@ def cex_states(path):
 
 def split_cases(path, nparts, sd):
     ex = json.load(open(path))
-    cases = ex['cases']
+    # the plans and the sample are exported side by side (they overlap): merge
+    seen, cases = set(), []
+    for c in ex['cases'] + ex.get('cases2', []) + ex.get('sampled', []):
+        k = json.dumps([sorted(json.dumps(x, sort_keys=True) for x in c['db']), sorted(json.dumps(x, sort_keys=True) for x in c['ms'])])
+        if k not in seen:
+            seen.add(k)
+            cases.append(c)
+    ex = {'names': ex['names'], 'cases': cases}
     # keep the cases of one database together: the driver stores each database once
     cases.sort(key=lambda c: json.dumps(c['db'], sort_keys=True))
     parts = []
@@ -216,6 +224,12 @@ def run(tier):
             par.go('sel_' + p['name'], tlc_run, 'MC_SelectorExport.tla',
                    SEL_CFG % dict(p, props='INVARIANTS MechEqDefOnSafe MechSubset PerSeries'), p['name'],
                    {p['outfile']: os.path.join(sd, p['outfile'])}, 2 if quick else 4, 1500)
+        if not quick:
+            # the whole 3 series x 3 matchers space on the specification alone (PerSeries: selection is decided per series on
+            # both sides, which is why the real code is driven exhaustively on <=3 x <=2 and <=1 x <=3 plus a sample of 3 x 3)
+            pf = selcfg('prom_full', 'prom', KV2, '{}', [(3, 3)])
+            pf['outfile'] = ''
+            par.go('sel_full', tlc_run, 'MC_Selector.tla', SEL_CFG % dict(pf, props='INVARIANTS MechEqDefOnSafe MechSubset PerSeries'), 'prom_full', {}, 6, 2400)
         # the property itself on the spec: mechanism = definition (a counterexample is a candidate for the real code)
         for kind, p in (('prom', selcfg('eq_prom', 'prom', KV2, '{}', [(1, 1)])), ('prof', selcfg('eq_prof', 'prof', KV1, G1, [(1, 1)]))):
             par.go('eq_' + kind, tlc_run, 'MC_SelectorExport.tla', SEL_CFG % dict(p, props='INVARIANTS MechEqDef'), p['name'],
@@ -315,7 +329,7 @@ def run(tier):
         for v in pq['violations']:
             path = vlib.save_replay('C17', safe(v['signature']), {'kind': 'PromQL over the real qryn Queryable vs the same engine over a Prometheus TSDB', 'finding': v})
             viols.append({'property': 'C17', 'signature': v['signature'], 'msg': v['msg'], 'replay': path})
-        if pq['stats'].get('queries_equal_nonempty', 0) < 50:
+        if pq['stats'].get('queries_reference_nonempty', 0) < 50:
             raise vlib.Infra('PromQL differential is vacuous: %s' % json.dumps(pq['stats']))
         if cur['stats'].get('sequences', 0) < 1000 or total_cases < 1000:
             raise vlib.Infra('vacuous coverage: %s sequences, %s selector cases' % (cur['stats'].get('sequences'), total_cases))
@@ -332,7 +346,7 @@ def run(tier):
                'exhaustive': True,
                'cursor': {'tlc': [res[k] for k in ['cur_sane'] + [c[0] for c in confs]], 'bounds': cb, 'replay': cur['stats'], 'tables': cur['tables'],
                           'transcription_mismatches': len(cur['unfaithful']), 'tlc_counterexamples_replayed': len(cur.get('candidates') or [])},
-               'selector': sel_cov, 'selector_cases_run': total_cases,
+               'selector': sel_cov, 'selector_cases_run': total_cases, 'selector_full_space_tlc': res.get('sel_full'),
                'promql': pq['stats'],
                'signatures': sorted(seen)}
         return {'level': 'model_checking', 'coverage': cov, 'violations': uniq,
